@@ -40,7 +40,7 @@ def gen_case(rng: random.Random, tier: str) -> dict:
         gen.add_falsy_consts(rng, g)  # legal but falsy outputs: 0, False, "", [], None
     return {"graph": g, "inputs": inp, "select": select, "async": [gen.gen_async_cfg(rng) for _ in range(2)],
             "touch": rng.random() < 0.3, "kw_split": rng.randrange(1 << 30) if rng.random() < 0.3 else None,
-            "api": {"decorators": rng.random() < 0.3, "explicit_edges": False, "wrap_async": rng.random() < 0.25, "siblings": rng.random() < 0.3}}
+            "api": {"decorators": rng.random() < 0.3, "explicit_edges": False, "wrap_async": rng.random() < 0.25, "siblings": rng.random() < 0.3, "rename_after_use": rng.random() < 0.4}}
 
 
 def _provided(doc: dict, graph) -> dict:
